@@ -27,7 +27,16 @@ P = {
                  "C18_blob_all_histories", "C18_blob_all_histories_pinned",
                  "C18_blob_unreadable_poll_changes_nothing", "C18_blob_single_absent_changes_nothing",
                  "C18_blob_F1_pinned_refuted", "C18_blob_F5_refuted", "C18_blob_F6_refuted",
-                 "C18_k8s_all_histories", "C18_k8s_converges", "C18_k8s_F7_pinned_refuted", "C18_k8s_F8_pinned_refuted"],
+                 "C18_k8s_all_histories", "C18_k8s_converges", "C18_k8s_F7_pinned_refuted", "C18_k8s_F8_pinned_refuted",
+                 # state-dependent acceptance (coq/C18/Accept*.v)
+                 "C18_accept_processor", "C18_accept_latest_applicable", "C18_accept_retry", "C18_accept_converges",
+                 "C18_accept_no_global_convergence",
+                 "C18_http_accept_all_histories", "C18_http_accept_retry", "C18_http_accept_converges",
+                 "C18_blob_accept_all_histories", "C18_blob_accept_retry", "C18_blob_accept_converges",
+                 "C18_accept_static_special_case", "C18_http_eager_hash_refuted", "C18_blob_eager_hash_refuted",
+                 "C18_fs_accept_all_histories", "C18_fs_accept_notify", "C18_fs_eager_hash_refuted",
+                 "C18_k8s_calls_independent_of_answers", "C18_k8s_accept_no_retry_witness",
+                 "C18_k8s_accept_next_generation_loads"],
     "streams": [{
         "name": "fs", "pkg": "./internal/rules/provider/filesystem", "test": "TestVerifC18Fs",
         "overlay": dict(_COMMON, **{"internal/rules/provider/filesystem/zz_verif_c18_test.go": "c18/fs_test.go"}),
@@ -117,7 +126,12 @@ P = {
                 "the rule-set processor is an oracle per content (accept/reject) and per source (deletion accepted/refused); the "
                 "streams fsreal, k8sreal, httpreal, blobreal check that the real processor+factory+repository behave like that oracle and like the ideal "
                 "repository keyed by source id — including update/delete of something not loaded, which the Kubernetes provider "
-                "relies on — for rule sets that do not compete for paths",
+                "relies on — for rule sets that do not compete for paths; for rule sets that compete for a path the processor is "
+                "modelled as dacc (acceptable in itself AND clashing with nothing another source holds now; deletion never "
+                "refused; C18_accept_processor) with the ideal repository, and httpreal / blobreal check that the real "
+                "processor+factory+repository behave like that for contents of four conflict classes (clash = same class); "
+                "the file-system and Kubernetes models against that processor (C18_fs_accept_*, C18_k8s_accept_*) are not "
+                "run against the real processor with competing rule sets",
                 "event delivery is modelled only as 'one notification per atomic change, in order' (fswatch) and 'polls one after "
                 "another' (httpsched); lost events, non-atomic writes, the window between initial load and watcher.Add, the "
                 "cloud-blob scheduler are not covered",
@@ -133,7 +147,16 @@ P = {
                   "trace_ok follow convergence, exactly-once application, no reload on unchanged content, unloading of "
                   "removed/emptied sources and keeping the previous version on invalid/rejected content. File system additionally at "
                   "world level: after the last change of a file any processed notification makes the loaded version the file's "
-                  "latest valid content, and the accepted calls per file never exceed the file's changes. The models are tied to "
+                  "latest valid content, and the accepted calls per file never exceed the file's changes. State-dependent "
+                  "acceptance (a valid rule set refused while ANOTHER source holds one of its paths, accepted later): for ALL "
+                  "processors dacc(ok0, clash, sources) and ALL histories the file-system, HTTP-endpoint and (single-key bucket) "
+                  "cloud-blob models make exactly the reference run's calls and leave the repository the specification "
+                  "spec_repo_steps demands — the same definitions the streams httpreal/blobreal evaluate on the real repository — "
+                  "i.e. per source the latest content that was valid and applicable at a look since the source appeared; a "
+                  "refused valid content is offered again at every later poll/notification (retry), and one poll after it became "
+                  "applicable it is loaded (convergence); the content-only oracle of the other theorems is the special case "
+                  "clash = none; providers that record the hash before the processor answered are refuted by witness "
+                  "histories. The models are tied to "
                   "the provider sources by running the real handlers, the real fsnotify watcher loop, the real gocron-scheduled "
                   "polls and the real client-go informer on ~2000 (quick) / ~50000 (thorough) generated histories per run.",
     "level_note": "PARTIAL in these respects. (1) An unreachable HTTP endpoint / bucket is read as a source that no longer exists "
@@ -144,15 +167,24 @@ P = {
                   "configuration. (3) Kubernetes is proved for well-formed histories (k8s_wf), read modulo idempotent processor "
                   "calls, and outside the guard of a UID change under a stored name (the repaired path of C18-F8 is covered by "
                   "correspondence and a witness only). (4) All provider theorems assume a processor that never refuses a deletion. "
+                  "(5) State-dependent acceptance: cloud blob only for buckets with one key and polls without a listed/named but "
+                  "absent blob (C18-F5/F6 territory); file system and Kubernetes against such a processor are model-level only "
+                  "(no stream runs them against the real processor with competing rule sets); the Kubernetes provider does NOT "
+                  "retry — a version refused for an external reason is offered again only when the object's spec changes "
+                  "(C18_k8s_accept_no_retry_witness; read from addRuleSet/updateRuleSet, not replayed on the real code, not "
+                  "recorded as a finding); convergence is per source and per look — two sources whose new contents each "
+                  "compete with the other's old content block each other for ever (C18_accept_no_global_convergence). "
                   "File system, cloud blob and Kubernetes are the providers after the fix: commits 07a625c (C18-F2, C18-F4), "
                   "9cefff4 (C18-F1), 46996f5 (C18-F7), f7bb6ba (C18-F8); pinned behaviour kept as *_pinned theorems/witnesses. "
                   "Trusted: Coq kernel/vm_compute; the correspondence harness incl. its class mappings; hashes as content "
                   "identities; parser and processor as oracles; cloud store stub; client-go informer as observed.",
     "assumptions": ["in-package drivers read Provider.states / BucketState and call unexported handlers: a rename or a change of "
                     "representation of those breaks the driver (reported as correspondence-broken), not the property",
-                    "the processor's answer depends only on the content (create/update) or the source (delete), not on the call history "
-                    "in the theorems; acceptance depending on what other sources have loaded (route conflicts) is exercised by the "
-                    "httpreal/blobreal streams against a specification on the loaded contents, without a theorem",
+                    "in the trace_ok theorems (C18_converges ... C18_k8s_converges) the processor's answer depends only on the content "
+                    "(create/update) or the source (delete), not on the call history; in the C18_*accept* theorems it depends on what "
+                    "OTHER sources have loaded at that moment (dacc: any ok0, any clash relation, any source list; never on the "
+                    "offering source's own previous content, and a deletion is never refused) — other forms of state dependence "
+                    "(rate limits, rule-id uniqueness across sources, ...) are not modelled",
                     "fairness is a hypothesis: every change is followed by a notification / poll that is processed"],
 }
 
